@@ -74,7 +74,7 @@ def dict_sub(a, b):
             if k in tmp:
                 tmp[k] = dict_sub(tmp[k], b[k])
             else:
-                tmp[k] = dict({},b[k])
+                tmp[k] = dict([(s, -c) for s, c in b[k].items()])
             if tmp[k] == dict():
                 del tmp[k]
             continue
